@@ -104,6 +104,16 @@ class TRef(T):
         return f"ref[{self.cls}]"
 
 
+class TBoxDict(TRef):
+    """A dict held INSIDE another container (value of a dict, element of a list): a reference to an immutable mapping
+    object whose content is the dict-typed heap field `__mapping__`; unboxed to a TDict value where it is used as a dict.
+    Read-only: the engine never creates or updates such an object."""
+
+    def __init__(self, inner):
+        super().__init__(f"Map<{inner.k!r};{inner.v!r}>")
+        self.inner = inner
+
+
 class TDict(T):
     """SMT-level dict: composite (keys Seq(K), has Array(K,Bool), val Array(K,V))."""
 
